@@ -232,47 +232,55 @@ Theorem C11_impose_at_scalar_exact : forall (N : Num) idx (t : T N) (x : list (T
 Proof. exact impose_at_scalar_exact. Qed.
 Print Assumptions C11_impose_at_scalar_exact.
 
+(* list target (impose_at as repaired by the lead's fix commit f9df652): target k goes to index k; a target whose index is
+   out of range is dropped together with it; everything outside the addressed indices is untouched; never an error *)
 Theorem C11_impose_at_list_exact : forall (N : Num) idx (ts x : list (T N)) d,
-  NoDup idx -> length ts = length (filter (fun i => Nat.ltb i (length x)) idx) ->
+  NoDup idx ->
   exists y, impose_at N idx (AtList ts) x = Ok y /\ length y = length x /\
-    (forall k, k < length ts -> nth (nth k (filter (fun i => Nat.ltb i (length x)) idx) 0) y d = nth k ts d) /\
-    (forall i, ~ In i idx -> nth i y d = nth i x d).
+    (forall k, k < length idx -> k < length ts -> nth k idx 0 < length x -> nth (nth k idx 0) y d = nth k ts d) /\
+    (forall i, ~ In i (firstn (length ts) idx) -> nth i y d = nth i x d).
 Proof. exact impose_at_list_exact. Qed.
 Print Assumptions C11_impose_at_list_exact.
 
-(* error branch: a list target of any other length (except 1) is a numpy shape mismatch *)
-Theorem C11_impose_at_list_mismatch_rejected : forall (N : Num) idx (ts x : list (T N)),
-  length ts <> length (filter (fun i => Nat.ltb i (length x)) idx) -> length ts <> 1 ->
-  impose_at N idx (AtList ts) x = Err ErrValue.
-Proof. exact impose_at_list_mismatch. Qed.
-Print Assumptions C11_impose_at_list_mismatch_rejected.
+(* Collapse with CollapseAt(target=list) (as repaired by fix 3c01a6d: the targets of the collapsed indices are selected):
+   FULL -- every collapsed in-range index is fixed at ITS OWN target, for any subset and iteration order; frame as above.
+   (The pre-repair code passed the whole list and refuted this: see the second half of the Example.) *)
+Theorem C11_collapse_list_target_exact : forall (N : Num) idx (ts x : list (T N)),
+  NoDup idx ->
+  exists y, collapse_at_list N idx ts x = Ok y /\ length y = length x /\
+    (forall i, In i idx -> i < length x -> nth i y (zero N) = nth i ts (zero N)) /\
+    (forall i, ~ In i idx -> nth i y (zero N) = nth i x (zero N)).
+Proof. exact collapse_at_list_exact. Qed.
+Print Assumptions C11_collapse_list_target_exact.
 
-(* FULL statement "Collapse with CollapseAt(target=list) yields working constraints" is REFUTED: Collapse passes the whole
-   target list with the collapsed SUBSET of indices (known finding list-target-proper-subset; related to F11) *)
-Theorem C11_collapse_list_target_refuted : impose_at NumQ [0] (@AtList NumQ [1%Q; 2%Q]) [5%Q; 6%Q] = Err ErrValue.
+Example C11_collapse_list_target_example :
+  collapse_at_list NumQ [1] [1%Q; 2%Q] [5%Q; 6%Q] = Ok [5%Q; 2%Q] /\
+  impose_at NumQ [1] (@AtList NumQ [1%Q; 2%Q]) [5%Q; 6%Q] = Ok [5%Q; 1%Q].
 Proof. exact collapse_list_target_witness. Qed.
-Print Assumptions C11_collapse_list_target_refuted.
 
 (* ---------------------------------------------------------------- after_collapse_relation_exact: impose_as *)
-(* FULL statement:  forall pairs x i j, In (i,j) pairs -> i,j in range -> (impose_as pairs) x has x_i = x_j.   REFUTED
-   (tools.connected never merges two groups; known finding unmerged-groups) *)
-Theorem C11_impose_as_ties_refuted :
-  exists (pairs : list (nat * nat)) (x : list Q) (i j : nat),
-    In (i, j) pairs /\ i < length x /\ j < length x /\
-    nth i (apply_groups NumQ (connected pairs) x) 0%Q <> nth j (apply_groups NumQ (connected pairs) x) 0%Q.
-Proof. exact impose_as_ties_refuted_lemma. Qed.
-Print Assumptions C11_impose_as_ties_refuted.
+(* tools.connected as repaired by the lead's fix commit 8baa3a7 (bridging pairs merge their groups): the groups are always
+   pairwise disjoint and the tie stage of impose_as makes x_i = x_j EXACTLY for every pair of the mask, for any iteration
+   order of the set and any chaining of pairs (FULL; the pre-repair model refuted this with {(0,1),(2,4),(0,4)}).
+   Not covered by a theorem: the offset stage (x[i] += offset loop) -- correspondence only. *)
+Theorem C11_connected_groups_disjoint : forall pairs, groups_disjoint (connected pairs) = true.
+Proof. exact connected_groups_disjoint. Qed.
+Print Assumptions C11_connected_groups_disjoint.
 
-(* PARTIAL: what does hold -- whenever the groups computed by tools.connected are pairwise disjoint, the tie stage makes
-   x_i = x_j exactly for every pair of the mask.  Missing: the general case (refuted above) and the offset stage
-   (x[i] += offset loop; covered by the correspondence only). *)
-Theorem C11_impose_as_ties_partial : forall (N : Num) pairs (x : list (T N)),
-  groups_disjoint (connected pairs) = true ->
-  forall i j, In (i, j) pairs -> i < length x -> j < length x ->
-    (forall g, In g (connected pairs) -> fst g < length x) ->
+Theorem C11_impose_as_ties_exact : forall (N : Num) pairs (x : list (T N)),
+  (forall p, In p pairs -> fst p < length x /\ snd p < length x) ->
+  forall i j, In (i, j) pairs ->
     nth i (apply_groups N (connected pairs) x) (zero N) = nth j (apply_groups N (connected pairs) x) (zero N).
-Proof. exact impose_as_ties_partial. Qed.
-Print Assumptions C11_impose_as_ties_partial.
+Proof. exact impose_as_ties. Qed.
+Print Assumptions C11_impose_as_ties_exact.
+
+Example C11_impose_as_merge_example :
+  let pairs := [(0, 1); (2, 4); (0, 4)] in
+  let x := [10; 20; 30; 40; 50]%Q : list Q in
+  connected pairs = [(0, [1; 4; 2])] /\
+  apply_groups NumQ (connected pairs) x = [10; 10; 10; 40; 10]%Q /\
+  groups_disjoint (connected pairs) = true.
+Proof. exact impose_as_merge_witness. Qed.
 
 (* CollapseAs(offset=True) in a solver: the boolean is handed to impose_as as the offset: x_j = x_i + 1 (known finding) *)
 Theorem C11_offset_true_imposes_plus_one_refuted : impose_as NumQ [(0, 1)] 1%Q [5%Q; 8%Q] = Some [5%Q; (5 + 1)%Q].
